@@ -306,7 +306,9 @@ def deliver(link, to_side, n):
     data = link.take(to_side, n)
     end = link.ends[to_side]
     # Twisted's TCP transport stops reading as soon as loseConnection() has been called
-    if data and end.protocol is not None and not end.transport.closed and not end.transport.disconnecting:
+    # (a scenario may set net.linger_reads: transports such as TLS keep delivering what was in flight until the close completes)
+    if data and end.protocol is not None and not end.transport.closed and (
+            not end.transport.disconnecting or getattr(link.net, "linger_reads", False)):
         end.protocol.dataReceived(data)
     return data
 
